@@ -51,6 +51,9 @@ var c08Imports = []string{
 	"import \"example.com/lib/a\"\nimport bb \"example.com/lib/b\"\nimport \"other.io/q\"\n",
 	"import (\n\t// about a\n\t\"example.com/lib/a\" // trailing a\n\tbb \"example.com/lib/b\"\n\t_ \"example.com/lib/v\"\n\n\t// group two\n\t\"other.io/q\"\n)\n",
 	"import (\n\t\"example.com/lib/a\"\n)\n\nimport (\n\tbb \"example.com/lib/b\"\n\t\"other.io/q\"\n)\n",
+	// cgo: the pseudo-package in a declaration of its own in front of the others, and inside the group
+	"// #include <stdlib.h>\nimport \"C\"\n\nimport (\n\t\"example.com/lib/a\"\n\tbb \"example.com/lib/b\"\n\n\t\"other.io/q\"\n)\n",
+	"import (\n\t\"C\"\n\n\t\"example.com/lib/a\"\n\tbb \"example.com/lib/b\"\n\t\"other.io/q\"\n)\n",
 	// an import declaration without specs (legal, and kept by gofmt) next to the others
 	"import ()\n\nimport (\n\t\"example.com/lib/a\"\n\tbb \"example.com/lib/b\"\n\n\t\"other.io/q\"\n)\n",
 	"import (\n\t\"example.com/lib/a\"\n\tbb \"example.com/lib/b\"\n\t\"other.io/q\"\n)\n\n// nothing here yet\nimport () // still nothing\n",
@@ -121,7 +124,9 @@ func c08Judge(src []byte, mk func(fset *token.FileSet, af *ast.File) (resolver.D
 		return "transparent-panic", "decorate: " + msg, nil, nil
 	}
 	if err != nil {
-		return "", "", nil, nil // refused by the resolver (dot-import ...): C09's business
+		// refused by the resolver: a dot-import is C09's business; for the generated sources (no
+		// dot-imports) an accurate resolver has nothing to refuse, and the caller reports it
+		return "decorate-refused", err.Error(), nil, nil
 	}
 	dst.Inspect(df, func(n dst.Node) bool {
 		if id, ok := n.(*dst.Ident); ok {
@@ -157,6 +162,9 @@ func checkC08(c *Ctx) {
 			trailer := "a.V, bb.W, q.Default"
 			if strings.Contains(imp, "govendor") {
 				trailer += ", ctx.Background(), vcfg.Default"
+			}
+			if strings.Contains(imp, "\"C\"") {
+				trailer += ", C.int(1), C.free"
 			}
 			// ... and a reference to a package-level object of the file's own package (it carries the local
 			// path when Decorator.ResolveLocalPath is set, and is never imported)
@@ -261,6 +269,9 @@ func checkC08(c *Ctx) {
 		}
 		sig, what, _, _ := c08Judge(f.Src, mk, simple.New(names), "example.com/local")
 		c.Eval("corpus|"+f.Path, true)
+		if sig == "decorate-refused" && !bytes.Contains(f.Src, []byte("import \"C\"")) {
+			return // dot-imports, two packages of one name: the syntax-based resolver may refuse those
+		}
 		if sig != "" {
 			in := "corpus|" + f.Path
 			if dupImport(f.Src) {
@@ -293,7 +304,7 @@ func checkC08(c *Ctx) {
 		}
 		c.Fail(Finding{Sig: "selector-" + res.Violated, Input: it.Key, What: "predicate " + res.Violated + " of SelectorTrace.tla fails for slots " + truncate(it.Key, 500), Replay: it.Replay})
 	})
-	c.Set("rule", "case = one canonical source with qualified identifiers (comments / line breaks before X, behind the dot, behind Sel; statement, argument, element and type contexts; seven import-block shapes) through decorate(accurate resolver)+restore(accurate names), or one corpus file; non-trivial = comments present; distinct by source + resolver")
+	c.Set("rule", "case = one canonical source with qualified identifiers (comments / line breaks before X, behind the dot, behind Sel; statement, argument, element and type contexts; nine import-block shapes) through decorate(accurate resolver)+restore(accurate names), or one corpus file; non-trivial = comments present; distinct by source + resolver")
 }
 
 func dupImport(src []byte) bool {
